@@ -243,7 +243,17 @@ def plan_c12(tier, seed, index):
     P.append(ob("c12_registry::c12_empty_table_rejects", "0x0 table: Rejected", timeout=600, mem_gb=4, functions=fns, bounds="any node"))
     P.append(ob("c12_registry::c12_step_1x2_t0", "real Registry 1x2 (shipped column count, MRU swap), transition-less nodes: nothing is evicted by two inserts, so every inserted node is found with its own address",
                 timeout=2400, mem_gb=24, functions=fns, bounds="3 symbolic nodes, T=0", core=False))
+    P.append(ob("c12_registry::c12_hits_1x2_t0", "real Registry 1x2: two distinct inserts, then three lookups each equal to one of them (symbolic choice): every one is a hit with its own address - a hit never displaces the other resident",
+                timeout=1200, mem_gb=24, functions=fns, bounds="2 symbolic nodes T=0, symbolic lookup choice, 5 entry() calls"))
     if tier == "thorough":
+        P.append(ob("c12_registry::c12_hits_1x3_t0", "as above, 3 columns (promote path)", timeout=2400, mem_gb=40, functions=fns, bounds="T=0, 1x3", core=False))
+    hfns = fns + ["fst::raw::registry::Registry::hash (FNV-1a, % rows)"]
+    P.append(ob("c12_registry::c12_hash_3x1_t0", "real Registry 3x1 (row chosen by the FNV hash): insert a, query an independently built node q (other allocation, other capacity): Found(addr of a) iff q equals a",
+                timeout=900, mem_gb=12, functions=hfns, bounds="2 symbolic nodes T=0, 3 rows x 1 column (concrete geometry)"))
+    if tier == "thorough":
+        P.append(ob("c12_registry::c12_hash_3x1_t1", "as above with one-transition nodes (5 FNV rounds over symbolic 64-bit fields; ran out of memory under a 16 GB cap)",
+                    timeout=2400, mem_gb=40, functions=hfns, bounds="2 symbolic nodes T=1, 3 rows x 1 column", core=False))
+        P.append(ob("c12_registry::c12_hash_2x2_t1", "2 rows x 2 columns", timeout=2400, mem_gb=24, functions=hfns, bounds="2 symbolic nodes T=1, 2x2", core=False))
         P.append(ob("c12_registry::c12_step_1x2_t1", "1x2 with one-transition nodes", timeout=2400, mem_gb=40, functions=fns, bounds="T=1", core=False))
         P.append(ob("c12_registry::c12_step_1x3_t0", "1x3 (promote path)", timeout=2400, mem_gb=40, functions=fns, bounds="T=0", core=False))
     P.append(twin("c12_registry::c12_twin_must_fail", "vacuity twin: a hit is possible", timeout=600, mem_gb=8))
